@@ -91,7 +91,7 @@ def _sentinel_tests(vals) -> List[str]:
     return out
 
 
-def check_scans(ctx, kinds=('lower', 'higher', 'closest'), fill_true_only=False):
+def check_scans(ctx, kinds=('lower', 'higher', 'closest'), fill_true_only=False, prove=False):
     ctx.rule('C10.3', 'strictness / tie / fill table of the two-pointer scans, decided on the evaluated loops (not their text): lower - prefix <, advance <=, result '
                       'x_idx, invalid prefix value 0 / -1 by fill_not_valid; higher - prefix <=, advance <, result x_idx+1, or x_idx / len(x) when x is exhausted; '
                       'closest - prefix <=, advance < with the current value carried, tie <= -> lower; each condition and stored value is compared with the '
@@ -228,6 +228,8 @@ def check_scans(ctx, kinds=('lower', 'higher', 'closest'), fill_true_only=False)
                 bad.append(f"{e.data.get('name') or getattr(e.data.get('callee'), 'name', e.kind)} called inside the scan at line {getattr(e.node, 'lineno', '?')}")
         ctx.check(not bad, 'C10.2', f"{kind}: element values flow only into comparisons; stored indices are built from counters only", f"{bad[:4]}",
                   fi.loc(), fi.qualname, f"{kind}:taint")
+        if prove:
+            prove_scan(ctx, m, kind, fi)
         ctx.sample({'rule': 'C10.3', 'scan': kind, 'prefix': str(Pf['cond']), 'advance': str(Ad['cond']),
                     'result': [f"{m.guard_in(Mn, e)} -> {show(e.data['value'], 50)}" for e in m.stores(Mn)][:4],
                     'roles': {'query': m.lkn, 'look-ahead': m.nxt, 'current': m.cur, 'array counter': m.p, 'query counter': m.q, 'result': m.ind}})
@@ -299,7 +301,266 @@ def check_dispatcher(ctx):
 
 def run(ctx):
     check_dispatcher(ctx)
-    check_scans(ctx)
+    ctx.rule('C10.4', 'inductive correctness argument, on the code\'s own loop conditions and stored values (not the documented table): with the invariant '
+                      'X[p] <= q (lower) / X[p] < q (higher, closest) at the loop heads - (VC1) every index stored by the prefix loop is the specified answer, (VC2) the exit '
+                      'of the prefix loop establishes the invariant at p = 0, (VC3) an advance step happens only when a further element exists and preserves it, (VC4) at '
+                      'the exit of the advance loop the stored index is the specified answer (largest <=, smallest >=, nearest with ties to the lower, fill rules), (VC5) '
+                      'the invariant survives the step to the next, not smaller, query, (VC6) the main loop runs exactly as long as a query is left.  The verification conditions are decided by enumerating valuations of the entities '
+                      'they mention over a small integer lattice (complete for comparisons; wide enough for the one linear form of the tie rule); the representation '
+                      'invariant (which name holds X[p], X[p+1], the query; value and counter advance together) is C10.3\'s')
+    check_scans(ctx, prove=True)
     ctx.notes.append('NOT DECIDED: that the skeleton with the right table is correct for every input (termination, pointer invariants, duplicate queries): needs a '
                      'loop-invariant proof or execution - outside static analysis as practised here.')
     ctx.trust('each table entry is a necessary condition: a query equal to an element, exactly half-way, or outside the range distinguishes it')
+
+
+# --------------------------------------------------------------------------- C10.4: inductive correctness argument over orderings
+def _ceval(v, env, fill: bool, Lval):
+    """value of a symbolic predicate / index expression of the scan under a valuation of its entities (env: list of (Val, value)): the loop
+    summaries are evaluated, the loop is not run.  The canonical form of a conditional value may mention the absent (None) look-ahead element in
+    a part that cancels; it is evaluated with two different stand-ins and has to give the same result."""
+    if any(val is None for _, val in env):
+        a = _ceval1(v, env, fill, Lval, 10 ** 6)
+        b = _ceval1(v, env, fill, Lval, 2 * 10 ** 6 + 7)
+        if a != b:
+            raise KeyError('None used as a number')
+        return a
+    return _ceval1(v, env, fill, Lval, None)
+
+
+def _ceval1(v, env, fill: bool, Lval, none_as):
+    from fractions import Fraction
+
+    def look(t):
+        for k_, val in env:
+            if isinstance(k_, Num):
+                k_ = _single(k_) or k_
+            if veq(k_, t):
+                return val
+        raise KeyError(str(t)[:80])
+
+    def rat(r: Rat):
+        mapping = {}
+        for a in r.atoms():
+            h, args = sym.ATOMS.head(a), sym.ATOMS.args(a)
+            if h == 'gamma':
+                mapping[a] = rat(args[1] if pred(args[0]) else args[2])
+            elif h == 'val':
+                t = args[0].term if hasattr(args[0], 'term') and args[0].term is not None else args[0]
+                x_ = look(t)
+                if x_ is None:
+                    if none_as is None:
+                        raise KeyError('None used as a number')
+                    x_ = none_as
+                mapping[a] = C(x_)
+            elif h == 'sym':
+                mapping[a] = C(Lval)
+            else:
+                raise KeyError(sym.show_atom(a)[:60])
+        out = sym.subst(r, mapping) if mapping else r
+        if isinstance(out, Rat):
+            if not out.is_const():
+                raise KeyError('not closed: ' + sym.show(out)[:60])
+            return out
+        return out
+
+    def num(x_):
+        if isinstance(x_, Num):
+            r_ = rat(x_.r)
+            return r_.const_value()
+        if isinstance(x_, Gam):
+            return num(x_.a if pred(x_.pred) else x_.b)
+        if isinstance(x_, Term):
+            val = look(x_)
+            if val is None:
+                if none_as is None:
+                    raise KeyError('None used as a number')
+                val = none_as
+            return Fraction(val)
+        raise KeyError(str(x_)[:60])
+
+    def pred(q) -> bool:
+        if isinstance(q, Const):
+            return bool(q.v)
+        if isinstance(q, P):
+            if q.op == 'not':
+                return not pred(q.args[0])
+            if q.op == 'and':
+                return all(pred(a) for a in q.args)
+            if q.op == 'or':
+                return any(pred(a) for a in q.args)
+            if q.op == 'isnone':
+                return look(q.args[0]) is None
+            if q.op == 'truthy':
+                if isinstance(q.args[0], Term) and q.args[0].head == 'param':
+                    return fill
+                t_ = q.args[0]
+                if isinstance(t_, Num):
+                    t_ = _single(t_) or t_
+                if isinstance(t_, Term) and t_.head in ('loopvar', 'lib:next'):
+                    val_ = look(t_)             # Python truthiness of an element / sentinel: None and 0 are false
+                    return val_ is not None and val_ != 0
+                raise KeyError('truthiness of ' + str(q.args[0])[:40])
+            if q.op in ('<', '<=', '==', '!=', '>', '>='):
+                a, b = num(q.args[0]), num(q.args[1])
+                return {'<': a < b, '<=': a <= b, '==': a == b, '!=': a != b, '>': a > b, '>=': a >= b}[q.op]
+        if isinstance(q, Gam):
+            return pred(q.a if pred(q.pred) else q.b)
+        raise KeyError('predicate ' + str(q)[:60])
+    if isinstance(v, (P, Const)) or (isinstance(v, Gam) and isinstance(v.a, (P, Const))):
+        return pred(v)
+    return num(v)
+
+
+def prove_scan(ctx, m: ScanModel, kind: str, fi):
+    """Hoare-style argument for one scan, discharged by enumerating valuations of the few entities the conditions mention (first element, current
+    and look-ahead element, current and next query, the fill flag) over a small integer lattice - complete for comparisons between entities, and wide
+    enough for the one linear form of the tie rule.  The conditions and stored values are the code's own (loop summaries), not the documented table.
+
+    invariant at the head of the main loop and of the advance loop:  lower: X[p] <= q      higher / closest: X[p] < q
+    VC1 prefix store is the specified answer; VC2 prefix exit establishes the invariant at p = 0; VC3 an advance step preserves it (and only
+    happens when a look-ahead element exists); VC4 at the exit of the advance loop the stored index is the specified answer; VC5 the invariant
+    survives the step to the next (not smaller) query."""
+    Pf, Mn, Ad = m.prefix, m.main, m.adv
+    rule = 'C10.4'
+    strict_inv = kind != 'lower'
+    R = range(-3, 4)            # the lattice straddles 0: an element or a query equal to 0 is an ordinary value
+    BIGP = 40
+
+    def inv(xp, q):
+        return xp < q if strict_inv else xp <= q
+
+    def spec_ok(r, q, fill, x0, xp, xn, p, L) -> Optional[bool]:
+        """is index r the specified answer for query q?  Known elements: X[0] = x0, X[p] = xp, X[p+1] = xn (None when p is the last index)."""
+        def X(j):
+            if j == 0:
+                return x0
+            if j == p:
+                return xp
+            if j == p + 1 and xn is not None:
+                return xn
+            return 'unknown'
+        last = L - 1
+        if kind == 'lower':
+            if q < x0:
+                return r == (0 if fill else -1)
+            if not (0 <= r <= last) or X(r) == 'unknown':
+                return False
+            nxt_ = None if r == last else X(r + 1)
+            if nxt_ == 'unknown':
+                return None
+            return X(r) <= q and (r == last or q < nxt_)
+        xl = xp if xn is None else None          # the last element is known only when p is the last index
+        if kind == 'higher':
+            if xl is not None and q > xl:
+                return r == (last if fill else L)
+            if r == 0:
+                return x0 >= q
+            if not (0 <= r <= last) or X(r) == 'unknown' or X(r - 1) == 'unknown':
+                return False if not (0 <= r <= last) else None
+            return X(r) >= q and X(r - 1) < q
+        # closest, ties to the lower index
+        if q <= x0:
+            return r == 0
+        if xl is not None and q > xl:
+            return r == last
+        if xn is None:
+            return r == p and q == xp
+        if not (xp < q <= xn):
+            return None                            # outside what the known elements decide
+        return r == (p if (q - xp) <= (xn - q) else p + 1)
+    problems: List[str] = []
+    undecided: List[str] = []
+    counts = {'VC1': 0, 'VC2': 0, 'VC3': 0, 'VC4': 0, 'VC5': 0, 'VC6': len(R) + 1}
+
+    def fail(vc, what, **vals):
+        if len(problems) < 6:
+            problems.append(f"{vc} {what}: " + ', '.join(f"{k}={v}" for k, v in vals.items()))
+    lk_pf = m.entry(Pf, m.lkn)
+    pf_stores = m.stores(Pf)
+    pf_guards = [m.guard_in(Pf, e) for e in pf_stores]
+    mn_stores = m.stores(Mn)
+    mn_guards = [m.guard_in(Mn, e) for e in mn_stores]
+    try:
+        # ---- VC1 / VC2: prefix loop, p = 0
+        for x0 in R:
+            for q in R:
+                for fill in (True, False):
+                    env = [(lk_pf, q), (m.X0, x0)]
+                    if m.cur is not None:
+                        env.append((m.entry(Pf, m.cur) if m.cur in Pf['entry'] else m.X0, x0))
+                    pc = _ceval(Pf['cond'], env, fill, 3)
+                    if pc:
+                        counts['VC1'] += 1
+                        live = [e for g, e in zip(pf_guards, pf_stores) if _ceval(g, env, fill, 3)]
+                        if not live:
+                            fail('VC1', 'no index is stored for a query handled by the prefix loop', first=x0, query=q, fill=fill)
+                            continue
+                        r = _ceval(live[-1].data['value'], env, fill, 3)
+                        # known: X[0] only (p = 0, look-ahead irrelevant for queries at or below the first element); L = 3 stands for "longer"
+                        ok = spec_ok(int(r), q, fill, x0, x0, x0 + 1, 0, 3)
+                        if ok is False:
+                            fail('VC1', 'the prefix loop stores an index that is not the specified answer', first=x0, query=q, fill=fill, stored=int(r))
+                    else:
+                        counts['VC2'] += 1
+                        if not inv(x0, q):
+                            fail('VC2', f"after the prefix loop the first element is not {'<' if strict_inv else '<='} the query (the main loop assumes it)",
+                                 first=x0, query=q)
+        # ---- VC6: the main loop runs exactly as long as there is a query (0 is a query like any other)
+        lk_mn = m.entry(Mn, m.lkn)
+        for q in list(R) + [None]:
+            mc = _ceval(Mn['cond'], [(lk_mn, q)], True, 3)
+            if mc != (q is not None):
+                fail('VC6', 'the main loop ' + ('stops although a query is left' if q is not None else 'continues without a query'), query=q)
+        # ---- VC3 / VC4 / VC5: main loop at an arbitrary position p
+        for p0 in (True, False):
+            p = 0 if p0 else BIGP
+            for x0 in R:
+                for xp in ([x0] if p0 else [v for v in R if v > x0]):
+                    for xn in [None] + [v for v in R if v > xp]:
+                        L = p + 1 if xn is None else p + 3
+                        for q in R:
+                            if not inv(xp, q):
+                                continue
+                            for fill in (True, False):
+                                env = [(lk_mn, q), (m.entry(Ad, m.lkn), q), (m.X0, x0), (m.entry(Ad, m.nxt), xn), (m.end(Mn, m.nxt), xn),
+                                       (m.entry(Ad, m.p), p), (m.end(Mn, m.p), p), (m.entry(Mn, m.p), p), (m.entry(Mn, m.nxt), xn)]
+                                if m.cur is not None:
+                                    env += [(m.entry(Ad, m.cur), xp), (m.end(Mn, m.cur), xp), (m.entry(Mn, m.cur), xp)]
+                                ac = _ceval(Ad['cond'], env, fill, L)
+                                if ac:
+                                    counts['VC3'] += 1
+                                    if xn is None:
+                                        fail('VC3', 'the advance loop continues although there is no further element', current=xp, query=q)
+                                    elif not inv(xn, q):
+                                        fail('VC3', 'an advance step breaks the invariant (it moves past an element that is not below / at the query)',
+                                             current=xp, look_ahead=xn, query=q)
+                                    continue
+                                counts['VC4'] += 1
+                                live = [e for g, e in zip(mn_guards, mn_stores) if _ceval(g, env, fill, L)]
+                                if not live:
+                                    fail('VC4', 'no index is stored for the query', current=xp, look_ahead=xn, query=q, fill=fill)
+                                    continue
+                                r = int(_ceval(live[-1].data['value'], env, fill, L))
+                                ok = spec_ok(r, q, fill, x0, xp, xn, p, L)
+                                if ok is False:
+                                    shown = f"p+{r - p}" if p and 0 <= r - p <= 2 else (f"len(x)" if r == L else str(r))
+                                    fail('VC4', 'the stored index is not the specified answer', first=x0, current=xp, look_ahead=xn, query=q, fill=fill,
+                                         stored=shown, position='p = 0' if p0 else 'p > 0')
+                                elif ok is None:
+                                    undecided.append(f"current={xp}, look_ahead={xn}, query={q}")
+                            # VC5: the next query is not smaller
+                            for q1 in R:
+                                if q1 >= q:
+                                    counts['VC5'] += 1
+                                    if not inv(xp, q1):
+                                        fail('VC5', 'invariant lost at the next query', current=xp, query=q, next_query=q1)
+    except KeyError as ex:
+        return ctx.unknown(rule, f"{kind}: inductive correctness argument", f"a condition of the scan mentions something outside the modelled entities: {ex}", fi.loc(),
+                           fi.qualname, f"{kind}:proof")
+    if undecided and not problems:
+        return ctx.unknown(rule, f"{kind}: inductive correctness argument", f"cases the known elements do not decide: {undecided[:3]}", fi.loc(), fi.qualname, f"{kind}:proof")
+    ctx.check(not problems, rule, f"{kind}: with the invariant X[p] {'<' if strict_inv else '<='} query at the loop heads, every stored index is the specified neighbour "
+              f"(prefix answers, establishment, preservation, exit answer, next query)", '; '.join(problems) if problems else
+              f"valuations examined: {counts}", fi.loc(), fi.qualname, f"{kind}:proof")
+    ctx.sample({'rule': rule, 'scan': kind, 'valuations': counts})
